@@ -57,6 +57,7 @@ def run(ctx: Ctx):
     r6_3(ctx)
     r6_4(ctx)
     r6_5(ctx, E.R)
+    r6_7(ctx)
     # R6.6: proposal constructors and the no-input-mutation rule
     L = c09.Loop(ctx)
     c09.r9_3(ctx, L, rule="R6.6")
@@ -295,3 +296,40 @@ def r6_5(ctx: Ctx, R: Resolver, rule="R6.5"):
     check_fixture(ctx, rule, "random_sources.py",
                   lambda repo: sum(1 for x in random_sources(ctx, Resolver(repo), list(repo.funcs.values()))
                                    if x[3].startswith("FORBIDDEN")), expect_exact=4)
+
+
+def r6_7(ctx: Ctx, rule="R6.7"):
+    """Default deformation types: within {0,1,2}; no single-atom moves (2) when a molecule has one atom."""
+    f = ctx.func("Alignment.align_molecules")
+    pm = parents_map(f.node)
+    p_def = [p for p in f.params if "deform" in p]
+    if not p_def:
+        ctx.ob(rule, f, "deformation types parameter", True, "parameter not recognised", undecided=True)
+        return
+    p_def = p_def[0]
+    defs = [s_ for s_ in walk_no_nested(f.node) if isinstance(s_, ast.Assign) and norm(s_.targets[0]) == p_def
+            and isinstance(s_.value, (ast.Tuple, ast.List))]
+    n = 0
+    for s_ in defs:
+        vals = [e.value for e in s_.value.elts if isinstance(e, ast.Constant)]
+        gs = guards_of(s_, pm)
+        single = any(("len(self.start) == 1" in norm(t) or "len(self.end) == 1" in norm(t)) and pol for t, pol in gs)
+        under_none = any(norm(t) == "%s is None" % p_def and pol for t, pol in gs)
+        ok = under_none and len(vals) == len(s_.value.elts) and set(vals) <= {0, 1, 2} and bool(vals)
+        if single:
+            ok = ok and 2 not in vals
+        else:
+            ok = ok and set(vals) == {0, 1, 2}
+        n += 1
+        ctx.ob(rule, f, s_, ok,
+               ("when a molecule has a single atom the default selection excludes single-atom moves (type 2 needs a bond)"
+                if single else "the default selection enables translation, rotation and single-atom moves (types 0, 1, 2)")
+               + " and is applied only when the caller gave none", node=s_, values=vals)
+    ctx.floor(rule, n, 2, "default deformation-type selections")
+    opt = [c for c in calls_in(f.node) if call_name(c) == "minimize_molecules"]
+    if opt:
+        last = opt[0].args[-1] if opt[0].args else None
+        kw = [k.value for k in opt[0].keywords if k.arg == "sim_type"]
+        val = kw[0] if kw else last
+        ctx.ob(rule, f, opt[0], val is not None and norm(val) == p_def,
+               "the optimiser receives the caller's (or the default) deformation types unchanged", node=opt[0])
